@@ -7,21 +7,17 @@
 (* One trace = one record [case, actual]: the abstract request printed by     *)
 (* Pipeline (EmitSpec) and what the real code did with one concretisation.    *)
 (* The recorded final state of the implementation is mapped onto the          *)
-(* variables of Pipeline (stage = "Done", out, handled, validated, changed,   *)
-(* flags) and the state predicates of Pipeline are evaluated on it; a failing *)
-(* predicate is printed as <<"REJECT", tid, 1, name>>.                        *)
-EXTENDS Naturals, Sequences, FiniteSets, TLC, Json, IOUtils
+(* variables of Pipeline (req, stage = "Done", out, handled, validated,       *)
+(* changed, flags) - it becomes a state of this specification - and the state *)
+(* predicates of Pipeline are evaluated on it; a failing predicate is printed *)
+(* as <<"REJECT", tid, 1, name>>.  Predicates the statement of C13 does not   *)
+(* demand are reported as <<"NOTE", ...>> only.                               *)
+EXTENDS Pipeline, IOUtils
 
-CONSTANTS ProviderTargets, ConsumerTargets, GetTargets, NumTargets, ReqTargets, EmptyBodyTargets,
-          UnimplTargets, MutatingTargets
-
-VARIABLES tid, l
+VARIABLES tid
 
 Data == JsonDeserialize(IOEnv.TRACE_FILE)
 Traces == Data.traces
-
-Rec == Traces[tid][1]
-A == Rec.actual
 
 \* refinement mapping of the recorded final state
 StatusClass(s) == IF s \in 200..299 THEN "success" ELSE IF s \in 400..599 THEN "error" ELSE "other"
@@ -32,44 +28,38 @@ KindOf(a) ==
   ELSE IF a.body \in {"empty", "text"} /\ StatusClass(a.status) = "error" THEN "bare"
   ELSE "none"      \* e.g. success status with a body that is neither the response nor a fault
 
-P == INSTANCE Pipeline WITH
-       Part <- "all", EmitOnly <- FALSE,
-       req <- Rec.case,
-       stage <- "Done",
-       pos <- 0,
-       out <- [kind |-> KindOf(A), status |-> StatusClass(A.status)],
-       handled <- A.handled,
-       validated <- A.validated,
-       changed <- ~A.state_same,
-       flags <- [escaped |-> A.escaped # "none", spin |-> (A.spin \/ A.timeout), unbounded |-> A.unbounded_read,
-                 expanded |-> A.expanded, fetched |-> (A.resolver_calls > 0 \/ A.socket_attempts > 0)]
-
 Clause(name, cond) == IF cond THEN TRUE ELSE PrintT(<<"REJECT", tid, 1, name>>)
-
-\* informational (not demanded by the statement): printed as NOTE lines
 Note(name, cond) == IF cond THEN TRUE ELSE PrintT(<<"NOTE", tid, 1, name>>)
 
 Judge ==
-  /\ Clause("Total", P!NoSpin)
-  /\ Clause("BoundedRead", P!BoundedRead)
-  /\ Clause("NoEscape", P!NoEscape)
-  /\ Clause("NoExpansion", P!NoExpansion)
-  /\ Clause("NoFetch", P!NoFetch)
-  /\ Clause("Outcome", P!Outcome)
-  /\ Clause("OutcomeAllowed", P!FoldAgrees)
-  /\ Clause("RejectIsNoop", P!RejectIsNoop)
-  /\ Note("ValidatedFirst", P!ValidatedFirst)
-  /\ Note("HandledOnlyIfAdmissible", P!HandledOnlyIfAdmissible)
-  /\ Note("AcceptOnlyHandled", P!AcceptOnlyHandled)
+  /\ Clause("Total", NoSpin)
+  /\ Clause("BoundedRead", BoundedRead)
+  /\ Clause("NoEscape", NoEscape)
+  /\ Clause("NoExpansion", NoExpansion)
+  /\ Clause("NoFetch", NoFetch)
+  /\ Clause("Outcome", Outcome)
+  /\ Clause("OutcomeAllowed", FoldAgrees)
+  /\ Clause("RejectIsNoop", RejectIsNoop)
+  /\ Note("ValidatedFirst", ValidatedFirst)
+  /\ Note("HandledOnlyIfAdmissible", HandledOnlyIfAdmissible)
+  /\ Note("AcceptOnlyHandled", AcceptOnlyHandled)
 
-TraceInit == /\ tid \in 1..Len(Traces)
-             /\ l = 1
-             /\ Judge
+TraceInit ==
+  /\ tid \in 1..Len(Traces)
+  /\ LET rec == Traces[tid][1]
+         a == rec.actual IN
+       /\ req = rec.case
+       /\ stage = "Done"
+       /\ pos = 0
+       /\ out = [kind |-> KindOf(a), status |-> StatusClass(a.status)]
+       /\ handled = a.handled
+       /\ validated = a.validated
+       /\ changed = ~a.state_same
+       /\ flags = [escaped |-> a.escaped # "none", spin |-> (a.spin \/ a.timeout), unbounded |-> a.unbounded_read,
+                   expanded |-> a.expanded, fetched |-> (a.resolver_calls > 0 \/ a.socket_attempts > 0)]
+  /\ Judge
 
-TraceNext == FALSE /\ UNCHANGED <<tid, l>>
+TraceSpec == TraceInit /\ [][UNCHANGED <<vars, tid>>]_<<vars, tid>>
 
-TraceSpec == TraceInit /\ [][TraceNext]_<<tid, l>>
-
-Total == Data.total
-AllConsumed == TLCGet("distinct") = Total
+AllConsumed == TLCGet("distinct") = Data.total
 =============================================================================
